@@ -4,8 +4,8 @@
 //! A *valid KISS answer* is built from the wire format: it answers the pending request (origin /
 //! client cookie equal, request still fresh, expected version), is in server mode and has
 //! stratum 0. v3/v4: the code is the ASCII reference id (RATE, DENY, RSTR, NTSN, anything else).
-//! v5 has no codes: "poll larger than ours (and not 127)" asks to slow down (RATE),
-//! "poll == 127" is a refusal (DENY), the auth-NAK flag is NTSN; the rest is unknown.
+//! v5 has no codes: the auth-NAK flag is NTSN (and overrides the rest), "poll larger than ours
+//! (and not 127)" asks to slow down (RATE), "poll == 127" is a refusal (DENY); the rest is unknown.
 use crate::common::*;
 use crate::stubs;
 use ntp_proto::*;
@@ -23,12 +23,13 @@ enum Kiss {
 fn kiss_class(p: &[u8], last_poll: i8) -> Kiss {
     if version_bits(p) == 5 {
         let poll = poll_byte(p);
-        if poll > last_poll && poll != 127 {
+        if p[15] & 0b100 != 0 {
+            // an auth-NAK is matched on unauthenticated data: nothing else in it counts
+            Kiss::Ntsn
+        } else if poll > last_poll && poll != 127 {
             Kiss::Rate
         } else if poll == 127 {
             Kiss::Deny
-        } else if p[15] & 0b100 != 0 {
-            Kiss::Ntsn
         } else {
             Kiss::Unknown
         }
@@ -124,7 +125,7 @@ fn rate_then_timer(src: &Src, pre: &Pre, rm: i8, acts: Acts) {
 sharness! {
     #[kani::unwind(30)]
     fn c09_rate() {
-        stubs::symbolic_clock();
+        frozen_clock();
         let (mut src, pre) = any_source(PvClass::V4Family);
         let mut p = any_pkt4();
         let b0: u8 = kani::any();
@@ -149,7 +150,7 @@ sharness! {
 sharness! {
     #[kani::unwind(30)]
     fn c09_rate_v5() {
-        stubs::symbolic_clock();
+        frozen_clock();
         let (mut src, pre) = any_source(PvClass::V5Family);
         let mut p = any_pkt5();
         let sel: u8 = kani::any();
@@ -202,7 +203,7 @@ fn deny_then_timer(src: &Src, pre: &Pre, acts: Acts) {
 sharness! {
     #[kani::unwind(30)]
     fn c09_deny() {
-        stubs::symbolic_clock();
+        frozen_clock();
         let (mut src, pre) = any_source(PvClass::V4Family);
         let mut p = any_pkt4();
         let b0: u8 = kani::any();
@@ -229,7 +230,7 @@ sharness! {
 sharness! {
     #[kani::unwind(30)]
     fn c09_deny_v5() {
-        stubs::symbolic_clock();
+        frozen_clock();
         let (mut src, pre) = any_source(PvClass::V5Family);
         let mut p = any_pkt5();
         let sel: u8 = kani::any();
@@ -273,7 +274,7 @@ fn other_body(src: &mut Src, pre: &Pre, pkt: &[u8]) {
 sharness! {
     #[kani::unwind(12)]
     fn c09_other() {
-        stubs::symbolic_clock();
+        frozen_clock();
         let (mut src, pre) = any_source(PvClass::Any);
         let mut p = any_pkt4();
         let b0: u8 = kani::any();
@@ -289,7 +290,7 @@ sharness! {
 sharness! {
     #[kani::unwind(30)]
     fn c09_other_v5() {
-        stubs::symbolic_clock();
+        frozen_clock();
         let (mut src, pre) = any_source(PvClass::Any);
         let mut p = any_pkt5();
         let sel: u8 = kani::any();
